@@ -53,6 +53,8 @@ func hasCycle(n int, deps [][]int) bool {
 }
 
 type graphCase struct {
+	Names  []string `json:"names,omitempty"` // stage names (default s0..); may contain ':'
+	Nested int      `json:"nested"`          // index+1 of a stage that includes a pipeline with the same stage names, 0 = none
 	N     int     `json:"n"`
 	Deps  [][]int `json:"deps"`  // Deps[i] = indices stage i depends on, in list order (may contain duplicates)
 	Order []int   `json:"order"` // declaration order
@@ -60,10 +62,33 @@ type graphCase struct {
 
 func checkGraphCase(gc graphCase, viaAddStage bool) {
 	var stages []*scheduler.Stage
+	nameOf := func(i int) string {
+		if len(gc.Names) > i {
+			return gc.Names[i]
+		}
+		return fmt.Sprintf("s%d", i)
+	}
 	for _, i := range gc.Order {
-		st := &scheduler.Stage{Name: fmt.Sprintf("s%d", i), Task: task.FromCommands("true")}
+		st := &scheduler.Stage{Name: nameOf(i), Task: task.FromCommands("true")}
 		for _, d := range gc.Deps[i] {
-			st.DependsOn = append(st.DependsOn, fmt.Sprintf("s%d", d))
+			st.DependsOn = append(st.DependsOn, nameOf(d))
+		}
+		if gc.Nested == i+1 {
+			// this stage runs another pipeline: a populated, acyclic chain over the SAME stage names
+			var inner []*scheduler.Stage
+			for k := 0; k < gc.N; k++ {
+				in := &scheduler.Stage{Name: nameOf(k), Task: task.FromCommands("true")}
+				if k > 0 {
+					in.DependsOn = []string{nameOf(k - 1)}
+				}
+				inner = append(inner, in)
+			}
+			ig, err := scheduler.NewExecutionGraph(inner...)
+			if err != nil {
+				out.Viol("C05", "acyclic-rejected", "a chain was rejected as cyclic", gc)
+				return
+			}
+			st.Task, st.Pipeline = nil, ig
 		}
 		stages = append(stages, st)
 	}
@@ -95,10 +120,10 @@ func checkGraphCase(gc graphCase, viaAddStage bool) {
 		out.Viol("C05", "cyclic-accepted", "a cyclic depends_on relation was accepted", gc)
 	case err == nil:
 		for i := 0; i < gc.N; i++ {
-			name := fmt.Sprintf("s%d", i)
+			name := nameOf(i)
 			want := map[string]bool{}
 			for _, d := range gc.Deps[i] {
-				want[fmt.Sprintf("s%d", d)] = true
+				want[nameOf(d)] = true
 			}
 			if got := setOf(g.To(name)); !sameSet(got, want) {
 				out.Viol("C05", "edges-differ", fmt.Sprintf("To(%s)=%v, declared %v", name, keysOf(got), keysOf(want)), gc)
@@ -107,7 +132,7 @@ func checkGraphCase(gc graphCase, viaAddStage bool) {
 			for j := 0; j < gc.N; j++ {
 				for _, d := range gc.Deps[j] {
 					if d == i {
-						wantF[fmt.Sprintf("s%d", j)] = true
+						wantF[nameOf(j)] = true
 					}
 				}
 			}
@@ -210,7 +235,38 @@ func modeGraph(a args) {
 		perms := permutations(4)
 		for i := 0; i < 6000/maxInt(a.Shards, 1); i++ {
 			mask := rnd.U64() & 0xffff
-			checkGraphCase(graphCase{N: 4, Deps: depsFromMask(4, mask), Order: perms[rnd.Intn(24)]}, rnd.Bool())
+			gc := graphCase{N: 4, Deps: depsFromMask(4, mask), Order: perms[rnd.Intn(24)]}
+			switch i % 3 {
+			case 1:
+				gc.Names = []string{"a", "a:b", "b:c", "c"} // ':' is the customary namespace separator in stage names
+			case 2:
+				gc.Nested = 1 + rnd.Intn(4)
+			}
+			checkGraphCase(gc, rnd.Bool())
+		}
+	}
+	// every digraph on 3 stages x every order, once with an including stage at each position and once with ':' names
+	perms3 := permutations(3)
+	for mask := uint64(0); mask < 1<<9; mask++ {
+		if !a.mine(int(mask)) {
+			continue
+		}
+		for _, p := range perms3 {
+			for nested := 1; nested <= 3; nested++ {
+				checkGraphCase(graphCase{N: 3, Deps: depsFromMask(3, mask), Order: p, Nested: nested}, mask%2 == 0)
+			}
+			checkGraphCase(graphCase{N: 3, Deps: depsFromMask(3, mask), Order: p, Names: []string{"x", "x:y", "y"}}, mask%2 == 1)
+		}
+	}
+	if !a.quick() {
+		perms4 := permutations(4)
+		for mask := uint64(0); mask < 1<<16; mask++ {
+			if !a.mine(int(mask)) {
+				continue
+			}
+			for _, p := range perms4 {
+				checkGraphCase(graphCase{N: 4, Deps: depsFromMask(4, mask), Order: p, Names: []string{"a", "a:b", "b:c", "c"}}, false)
+			}
 		}
 	}
 	nr := a.n(20000, 400000) / maxInt(a.Shards, 1)
